@@ -1,12 +1,17 @@
 """C08 - GF(2^16) and GF(2)[x] arithmetic is the arithmetic of the PAR2 field."""
 import vlib
+from checks import archive
+
+PROCS_QUICK = (3, 7)
+PROCS_THOROUGH = (1, 2, 3, 5, 6, 7, 9, 11, 12, 13)
 
 RULE = ("design level: every case <<field, a, b>> of GF(4), GF(8), GF(16), GF(256)/0x11D and GF(2)[x] "
         "(degree < PolyW) plus the 65535-step generator walk in GF(2^16)/0x1100B; conformance: one event "
         "per recorded batch of gf2p16.T.Times/Div/Inverse/Pow or gf2.Poly64.Times/Div calls "
         "(all 65536 a x {basis, 0, 1, 0xFFFF, seeded, log-sum boundary partners}, all inverses, Pow on "
         "bases x exponent classes up to 2^32-1), each judged by TLC against GF!Mul / GF2Poly; plus closure "
-        "sweeps over all 2^32 pairs whose mismatches are nominated to TLC.  distinct = distinct events.")
+        "sweeps over all 2^32 pairs whose mismatches are nominated to TLC; a reduced list (table ends, chunk boundaries, all inverses) is recorded again in "
+        "processes started with other GOMAXPROCS values.  distinct = distinct events.")
 
 ASSUME = ["GF!FastMul equals the definitional GF!Mul: every table entry is checked by its recurrence and "
           "FastMul = Mul on all a x basis b in an ASSUME of the trace spec",
@@ -22,7 +27,13 @@ def run(ctx):
         trace = ctx.drive(["c08"])
         events = vlib.read_ndjson(trace)
         verdicts = ctx.judge("Trace_C08", trace)
-        return events, verdicts
+        parts = [(events, verdicts)]
+        # configurations: the tables are built at package initialisation; they must not depend on GOMAXPROCS
+        for procs in (PROCS_THOROUGH if ctx.thorough else PROCS_QUICK):
+            t = ctx.drive(["c08", "-mode", "procs"], out_name="c08-procs%d.ndjson" % procs, env_extra={"GOMAXPROCS": str(procs)})
+            parts.append((vlib.read_ndjson(t), ctx.judge("Trace_C08", t)))
+        ctx.extra["gomaxprocs_values"] = [16] + list(PROCS_THOROUGH if ctx.thorough else PROCS_QUICK)
+        return archive.combine(*parts)
 
     events, verdicts = once()
     ctx.samples = [events[1], events[3], [e for e in events if e["ev"] == "pow"][5],
